@@ -25,6 +25,7 @@ pub assume_specification[ SymbolicContext::find_network_variable ](c: &SymbolicC
     ensures r is Some <==> prop_index(name@) is Some;
 //@include prelude/std_model.rs
 //@include spec/syntax.rs
+//@include prelude/str_model.rs
 //@include spec/grammar.rs
 //@include spec/lex.rs
 //@include spec/rename.rs
